@@ -722,7 +722,12 @@ PROPS = {
                        "everything after its owner' and nsec3_in_range == the circular interval of RFC 5155 8.3 (real text, "
                        "comparison operators written as method calls on models carrying the position in the total order). The validity clock of a cached "
                        "node: Node::ttl (real text, Duration modelled as a number with a panicking `-`) is total however much time has passed and "
-                       "never exceeds the validity (this contract pins D55: a DNSKEY RRset served with TTL 0 made the validator panic).",
+                       "never exceeds the validity (this contract pins D55: a DNSKEY RRset served with TTL 0 made the validator panic). Soundness of the NSEC "
+                       "denial proofs: nsec_for_nodata, nsec_for_not_exists, nsec_for_nxdomain and nsec_for_nodata_wildcard (real text) conclude NODATA, "
+                       "non-existence (with the closest encloser that NSEC gives), a name error (two proofs: the name and the wildcard at its closest "
+                       "encloser) and wildcard NODATA only when groups of the answer prove them in the sense of RFC 4035 5.4 (predicates proves_nodata / "
+                       "proves_nx: right owner or covering interval, type and CNAME absent, the right side of a zone cut, no empty non-terminal, no "
+                       "delegation or DNAME above the name); which NSEC of a group counts is get_checked_nsec (modelled).",
         "not_covered": "Soundness of 'secure' beyond the 360 scenarios of the native search (signature chains to a trust anchor, NSEC/NSEC3 proofs), insecure-delegation handling, "
                        "every other panic site of the validator (e.g. get_checked_nsec's panic!(\"NSEC expected\"), "
                        "nsec3_hash(..).unwrap()), loops: async code over caches and crypto, out of reach.",
